@@ -76,7 +76,7 @@ fn run_one(price: u64, o: pricelevel::OrderType<()>, new_qty: u64, match_qty: u6
             *am2.lock().unwrap() = l2.iter_orders().iter().find(|x| x.id() == the_id).map(|a| **a);
         }
     })));
-    let _ = level.update_order(OrderUpdate::UpdateQuantity { order_id: o.id(), new_quantity: new_qty });
+    let amend_result = level.update_order(OrderUpdate::UpdateQuantity { order_id: o.id(), new_quantity: new_qty });
     pricelevel::verif_hook::set_hook(None);
     let ls = level.iter_orders();
     let sv: u128 = ls.iter().map(|o| o.visible_quantity() as u128).sum();
@@ -90,7 +90,10 @@ fn run_one(price: u64, o: pricelevel::OrderType<()>, new_qty: u64, match_qty: u6
     // supplied (as amended) = executed + resting; quantity that was already executed must not rest again
     {
         let resting = ls.iter().find(|x| x.id() == the_id).map(|a| **a);
-        let want = after_match.lock().unwrap().map(|m| m.with_reduced_quantity(new_qty));
+        // an amendment that reports success applies to the order as the match left it; one that reports "nothing done"
+        // (not found / error) must leave that order as it is - both keep supplied = executed + resting
+        let took_effect = matches!(amend_result, Ok(Some(_)));
+        let want = after_match.lock().unwrap().map(|m| if took_effect { m.with_reduced_quantity(new_qty) } else { m });
         let tot = |x: &Option<pricelevel::OrderType<()>>| x.map(|o| (o.visible_quantity(), o.hidden_quantity()));
         if tot(&resting) != tot(&want) {
             rep.violation("C03", "conc.per_order_supplied_equals_executed_plus_resting", format!("{what}: the match left the order as {:?}; amending THAT order gives (visible, hidden)={:?}, but the level now rests {:?}", *after_match.lock().unwrap(), tot(&want), tot(&resting)));
